@@ -358,7 +358,7 @@ def rule_B3(ctx: Ctx) -> None:
                     second_cell = nme
     elif isinstance(cl.iter, ast.Call) and dotted_of(cl.iter.func) == "zip" and len(cl.iter.args) == 2 and isinstance(cl.target, ast.Tuple) and len(cl.target.elts) == 2:
         a0, a1 = cl.iter.args
-        rng_ok = X.same_expr_x(a0, None, "path[:-1]") and X.same_expr_x(a1, None, "path[1:]")
+        rng_ok = X.same_expr_x(a0, None, "path[:-1]", "path") and X.same_expr_x(a1, None, "path[1:]")   # zip stops at the shorter operand
         if rng_ok:
             first_cell, second_cell = (e.id for e in cl.target.elts)
     edges = [s_ for s_ in cl.body if isinstance(s_, ast.Assign) and isinstance(s_.targets[0], ast.Subscript) and X.U(s_.targets[0].value) == "connection_list"]
@@ -373,7 +373,8 @@ def rule_B3(ctx: Ctx) -> None:
         parts = N.subscript_parts(marks[0].targets[0])
         base = X.U(parts[0].value) if isinstance(parts[0], ast.Subscript) else (X.U(parts[0].args[0]) if isinstance(parts[0], ast.Call) and parts[0].args else None)
         mark_ok = base == first_cell and isinstance(marks[0].value, ast.Constant) and marks[0].value.value is True
-    ctx.judge(w, rng_ok and len(edges) == 1 and ends_ok and mark_ok,
+    # an iteration form this rule does not read (neither the index loop nor the pairwise zip) is unrecognised, not wrong: B10 decides it
+    ctx.judge(w, (rng_ok and len(edges) == 1 and ends_ok and mark_ok) if (first_cell and second_cell) or len(edges) != 1 else None,
               {"range": X.U(cl.iter), "edge_stores": len(edges), "endpoints_are_path_i_and_i_plus_1": ends_ok, "marks_path_i_visited": mark_ok}, exp,
               "committed walks skip an edge, join non-consecutive cells or leave cells unmarked (cycles / duplicated walks)", node=cl)
     wl = walk[0]
